@@ -24,7 +24,23 @@ CHECKS = {
    "deterministic simulation: seeded operation histories + injected database faults against a snapshot-stack reference model", "5 C06"),
 }
 
+
+E1_NOTE = "Trusted: SimDisk/FaultyDb stubs, the monitor inspector (reads only the journaled state), the seeded program generator; injected inspector outcomes are legal ones. Sampling of programs/histories/fault points, not proof; reach is reported as probes in the evidence."
+E1_TECH = "deterministic simulation: seeded worlds and transaction histories on one live Evm, monitor inspector invariants, injected database faults / out-of-gas points / inspector short-circuits"
+CHECKS.update({
+ "C07": ("txsim", "exploration", "Seeded transactions whose contracts perform sibling calls/creates hitting the early-return and failure exits of frame creation and return; at every call/create hook the journal depth is recorded and must be the same at the matching end hook (0 at transaction end); each history ends with a driver that, after 0-12 sibling calls/creates, probes maximal depth with a self-recursive contract and must report exactly 1023 nested levels below the driver.", E1_NOTE, E1_TECH, "5 C07"),
+ "C08": ("txsim", "exploration", "Per committed transaction, 512-bit sums over every address of the world plus every address of the returned state: total after = total before - base fee burn - blob fee - balances of deleted accounts - ether burned by completed self-destructs naming the contract itself. Worlds include balances near 2^256, value-bearing calls/creates that fail (out-of-gas points, overflow, insufficient funds), self-destructs; failed frames are additionally compared with frame-level snapshots.", E1_NOTE + " Known findings D7a/D7b (total supply above 2^256) are listed in known_findings.json.", E1_TECH, "5 C08"),
+ "C09": ("txsim", "exploration", "Per executed transaction: intrinsic <= gas spent <= limit, floor <= used (Prague), refund cap /2 or /5, halt uses the whole limit, exact reconstruction of gas used/refunded from the top frame's gas as seen by the monitor, sender debit = price x used + blob fee (+ value) and beneficiary credit = (price - base fee) x used, read back from the committed state. Intrinsic/floor/fee formulas are the simulator's own, written from the EIPs.", E1_NOTE + " 'intrinsic <= gas used' is read on gas spent before refunds (pre-London a correct execution can report less after refunds); set-code (EIP-7702) transactions are exempt from the halt/intrinsic rules because the specification grants the authority refund whatever the outcome; payment equations are evaluated only when no other ether flow touched the party.", E1_TECH, "5 C09"),
+ "C10": ("txsim", "exploration", "Per step: a state-changing opcode (SSTORE, TSTORE, LOGn, CREATE, CREATE2, SELFDESTRUCT, CALL with value) attempted while the interpreter is static must end in an error result; per frame: a snapshot of balances, nonces, code, storage, transient storage, logs and created/destroyed flags taken at the hook of every outermost static frame must be unchanged at its end; static mode must be inherited by every nested frame.", E1_NOTE, E1_TECH, "5 C10"),
+ "C11": ("txsim", "exploration", "The monitor copies the parent's memory when it issues a call/create and compares it byte for byte at the parent's next instruction: equal except the first min(out_len, returndata) bytes of the return window, same length; every frame's first instruction sees empty memory. Children are killed by out-of-gas at arbitrary points and replaced by inspector short-circuits.", E1_NOTE + " The API-level model of SharedMemory (E4) is not built yet.", E1_TECH, "5 C11"),
+ "C29": ("txsim", "exploration", "History check over the callback stream of the real inspector plumbing: every call/create/eofcreate notification is matched LIFO by exactly one end notification with identical inputs (including rejected, precompile, depth-limit and short-circuited frames), every step has exactly one step_end before anything else happens, every LOG that continues is followed by exactly one log notification carrying the last journaled log, nothing is left open at transaction end, and a transaction after an aborted one parses from a clean start.", E1_NOTE, E1_TECH, "5 C29"),
+ "C30": ("txsim", "exploration", "At every SELFDESTRUCT step the monitor notes the executing contract, the beneficiary on the stack and the contract's balance; if the instruction completes exactly one notification with those operands must follow, otherwise none; notifications after any other instruction are violations. Worlds bias self-destructs to self/other/new accounts, with and without balance, created in the same transaction or not, before and after Cancun, preceded by value-bearing calls.", E1_NOTE + " For a Cancun self-targeting self-destruct of a pre-existing contract nothing leaves the contract; a reported value of 0 or of the balance is accepted.", E1_TECH, "5 C30"),
+ "C34": ("txsim", "exploration", "An executable access-set model (EIP-2929/2930/3651/7702, nested rollback) predicts cold/warm for every SLOAD, SSTORE, BALANCE, EXTCODESIZE, EXTCODEHASH, EXTCODECOPY, CALL-family and SELFDESTRUCT step; the monitor compares it with the status revm applied (a cold load is journaled) and with the exact gas of SLOAD/BALANCE/EXTCODESIZE/EXTCODEHASH/SSTORE; the JournaledState API is checked the same way under nested checkpoint reverts (E2).", E1_NOTE + " Composite prices (CALL, EXTCODECOPY, SELFDESTRUCT) are checked through the applied status only; SSTORE through revm's own formula evaluated with the model's cold bit.", E1_TECH, "5 C34"),
+})
+CHECKS["C06"] = ("journalsim+txsim",) + CHECKS["C06"][1:]
+
 ENGINES = [
+ {"name": "txsim", "path": "sim/src/e1_tx.rs", "serves_properties": ["C06","C07","C08","C09","C10","C11","C29","C30","C34"], "kind_free_text": "E1 monitor mode: whole transactions on a live Evm with the monitor inspector, F1/F2/F3 faults"},
  {"name": "journalsim", "path": "sim/src/e2_journal.rs", "serves_properties": ["C06", "C34"], "kind_free_text": "E2: JournaledState API histories over FaultyDb, snapshot-stack reference model"},
 ]
 
